@@ -209,6 +209,10 @@ func callsOut(c *toyCurve) [][]int {
 
 func extOut(e *slip10.ExtendedKey, err error, p string) M {
 	out := M{"ok": err == nil && p == "", "err": errName(err), "panic": p, "key": []int{}, "chain": []int{}, "fp": []int{}, "pub": []int{}, "private": false, "calls": [][]int{}}
+	if err == nil && p == "" && (e == nil || e.Key == nil) {
+		out["err"] = "nil-key-without-error" // success reported but no key: left as ok=true with empty fields for the specification to judge
+		return out
+	}
 	if err == nil && p == "" && e != nil {
 		out["key"], out["chain"], out["fp"] = vInts(e.Key.Bytes()), vInts(e.ChainCode), vInts(e.Fingerprint())
 		out["private"] = e.IsPrivate()
@@ -256,6 +260,23 @@ func runF(op string, in M) (M, M) {
 		privBytes := vBytes(in["parent_priv"])
 		tc := &toyCurve{script: scriptOf(in)}
 		var parentKey slip10.Key
+		var parentObj *slip10.ExtendedKey
+		if in["obj_seed"] != nil && curve != "toy" {
+			// the parent is an object produced by the library itself (keys and chain codes may share buffers)
+			var opath []uint32
+			for _, x := range in["obj_path"].([]interface{}) {
+				e := vIntList(x)
+				opath = append(opath, uint32(e[1])|uint32(e[0])<<31)
+			}
+			var err error
+			parentObj, err = slip10.DeriveKeyFromPath(vBytes(in["obj_seed"]), realCurve(curve), opath)
+			if err != nil {
+				panic("verif: object path does not derive")
+			}
+			privBytes = append([]byte{}, parentObj.Key.Bytes()...)
+			chain = append([]byte{}, parentObj.ChainCode...)
+			in["parent_priv"], in["chain"] = toIface(privBytes), toIface(chain)
+		}
 		if curve == "toy" {
 			parentKey = &toyKey{k: privBytes, c: tc, priv: true}
 		} else {
@@ -278,6 +299,12 @@ func runF(op string, in M) (M, M) {
 			parentKeyBytes = parPub
 		}
 		parent := &slip10.ExtendedKey{ChainCode: append([]byte{}, chain...), Key: parentKey}
+		if parentObj != nil {
+			parent = parentObj
+			if usePub {
+				parent = parentObj.Public()
+			}
+		}
 		// history on the same object: other children derived first must not disturb the parent
 		for _, pi := range vIntList(in["prior"]) {
 			vCatch(func() { parent.DeriveChild(uint32(pi) | slip10.Hardened) })
@@ -422,6 +449,13 @@ func TestVerifDriver(t *testing.T) {
 			if c["ok"] != true {
 				break
 			}
+			// the same derivation from the library's own parent object, after sibling derivations on that object
+			objPath := path
+			if objPath == nil {
+				objPath = [][]int{}
+			}
+			emit("slip10.child", M{"curve": curve, "obj_seed": vInts(seed), "obj_path": objPath, "pub": false, "index": pair,
+				"prior": []int{r.Intn(1 << 20), 1 + r.Intn(9)}[:1+r.Intn(2)]})
 			path = append(path, pair)
 			key, chain = c["key"], c["chain"]
 		}
